@@ -151,6 +151,10 @@ func (w *World) do(a Action) {
 		if n.After > 0 {
 			time.Sleep(time.Duration(n.After))
 		}
+		// a chain does not go on into the harness's own wind-down
+		if w.tr.now() >= w.sc.Until {
+			return
+		}
 		if n.I == "" {
 			n.I = a.I
 		}
